@@ -279,9 +279,10 @@ def random_body(rng, n, depth, nv, nl):
     return out
 
 
-def valid_body(rng, n, depth, scope, counter, outer_pending):
-    """mostly-valid bodies: uses pick visible variables, every goto gets a fresh label that is placed later in
-    this block or handed to an enclosing one; declarations pick fresh names (sometimes a clash)"""
+def valid_body(rng, n, depth, scope, counter, outer_pendings):
+    """mostly-valid bodies: uses pick visible variables; a goto targets a fresh label or one that is still pending
+    in this or an enclosing block (several gotos, at different depths, to one label); every pending label is
+    placed later in the block that owns it; declarations pick fresh names (sometimes a clash)"""
     out = []
     scope = list(scope)
     pending = []          # labels that must still be placed in this block
@@ -303,19 +304,23 @@ def valid_body(rng, n, depth, scope, counter, outer_pending):
         elif r < 50 and scope:
             out.append(('use', [pickv() for _ in range(1 + rng.below(3))]))
         elif r < 72:
-            counter[0] += 1
-            lab = counter[0]
-            if outer_pending is not None and rng.chance(1, 3):
-                outer_pending.append(lab)
+            live = pending + [l for ps in outer_pendings for l in ps]
+            if live and rng.chance(2, 5):
+                lab = rng.pick(live)
             else:
-                pending.append(lab)
+                counter[0] += 1
+                lab = counter[0]
+                if outer_pendings and rng.chance(1, 3):
+                    rng.pick(outer_pendings).append(lab)
+                else:
+                    pending.append(lab)
             g = ('goto', lab)
             if rng.chance(1, 2):
                 g = ('if', [pickv()] if scope else [R], g)
             out.append(g)
         elif depth > 0 and n > 1:
             m = 1 + rng.below(min(n - 1, 5))
-            inner = valid_body(rng, m, depth - 1, scope, counter, pending)
+            inner = valid_body(rng, m, depth - 1, scope, counter, outer_pendings + [pending])
             if rng.chance(1, 2):
                 out.append(('block', inner))
             else:
@@ -328,6 +333,47 @@ def valid_body(rng, n, depth, scope, counter, outer_pending):
         out.append(('label', lab))
         if scope and rng.chance(1, 2):
             out.append(('use', [rng.pick(scope)]))
+    return out
+
+
+def multi_goto_body(rng, counter):
+    """several gotos to ONE label issued from scopes of different sizes (nested blocks with their own locals),
+    declarations in the label's block between and around them, uses after the label"""
+    def fresh():
+        counter[1] += 1
+        return counter[1]
+    counter[0] += 1
+    lab = counter[0]
+    out = []
+    scope = [R]
+    for _ in range(rng.below(3)):
+        v = fresh()
+        out.append(('decl', v, []))
+        scope.append(v)
+    declared_between = []
+    for g in range(2 + rng.below(3)):
+        # a goto, possibly inside a nested block holding some locals of its own
+        locs = rng.below(4)
+        goto = ('goto', lab) if rng.chance(1, 2) else ('if', [rng.pick(scope)], ('goto', lab))
+        if locs or rng.chance(1, 3):
+            inner = []
+            for _ in range(locs):
+                inner.append(('decl', fresh(), []))
+            if rng.chance(1, 3):
+                inner = [('block', inner + [goto])]
+            else:
+                inner = inner + [goto]
+            out.append(('block', inner) if rng.chance(1, 2) else ('if', [rng.pick(scope)], ('block', inner)))
+        else:
+            out.append(goto)
+        for _ in range(rng.below(3)):
+            v = fresh()
+            out.append(('decl', v, []))
+            scope.append(v)
+            declared_between.append(v)
+    out.append(('label', lab))
+    for _ in range(1 + rng.below(3)):
+        out.append(('use', [rng.pick(declared_between) if declared_between and rng.chance(3, 4) else rng.pick(scope)]))
     return out
 
 
@@ -346,7 +392,9 @@ def main():
     for i in range(60000 if thorough else 4000):
         cases.append((random_body(rng, 1 + rng.below(14 if i % 3 else 30), 3, 2 + rng.below(2), 1 + rng.below(3)), i % 3))
     for i in range(60000 if thorough else 4000):
-        cases.append((valid_body(rng, 2 + rng.below(16), 3, [R], [10, 10], None), i % 3))
+        cases.append((valid_body(rng, 2 + rng.below(16), 3, [R], [10, 10], []), i % 3))
+    for i in range(40000 if thorough else 3000):
+        cases.append((multi_goto_body(rng, [10, 10]), i % 3))
     reqs = [requests(b, v) for (b, v) in cases]
     m = run_model([r[1] for r in reqs])
     # keep label-correct bodies only (the property is stated on those; E400/E420 gotos/labels are poisoned
